@@ -525,6 +525,17 @@ func (s *v4Server) updateStaticLease(l *dhcpsvc.Lease) (err error) {
 	s.leasesLock.Lock()
 	defer s.leasesLock.Unlock()
 
+	// Check the conditions under which addLease fails before removing the
+	// dynamic leases, so that a rejected static lease leaves the lease table
+	// unchanged.
+	if sn := s.conf.subnet; !sn.Contains(l.IP) {
+		return fmt.Errorf("subnet %s does not contain the ip %q", sn, l.IP)
+	}
+
+	if dup, ok := s.hostsIndex[l.Hostname]; ok && l.Hostname != "" && dup.IsStatic {
+		return ErrDupHostname
+	}
+
 	err = s.rmDynamicLease(l)
 	if err != nil {
 		return fmt.Errorf("removing dynamic leases for %s (%s): %w", l.IP, l.HWAddr, err)
